@@ -93,7 +93,7 @@ func queryCases(rig *Rig, sc *Scenario, v *View) []qcase {
 		}
 		out = append(out, c)
 	}
-	provs := []sdk.AccAddress{P1, P2, P3, Pp, XX}
+	provs := []sdk.AccAddress{P1, P2, P3, Pp, XX, nil} // nil: the empty provider argument
 	// 2 binding, 8 pending requests of a binding
 	for _, n := range []string{"a", "ab"} {
 		for _, p := range provs {
